@@ -1,7 +1,7 @@
 """C12 — an elastic isotropic solid is the same material from any modulus pair."""
 from .. import common as C, models as M
 
-CLASSES = {'elastic_ctor', 'elastic_stress', 'elastic_strain', 'model_stub', 'elastic_rebuild', 'model_inverse_composition'}
+CLASSES = {'elastic_ctor', 'elastic_stress', 'elastic_strain', 'model_stub', 'elastic_rebuild', 'model_inverse_composition', 'elastic_map_real'}
 
 
 def run(tier):
@@ -24,7 +24,11 @@ def run(tier):
                    'specification on the snapped state and each accessor identity by cross-multiplication; stress/strain on integer tensors through 3 overloads x direct / abstract interface x 3 model types')
     chk.layer('B', rebuild_events=len(rb), materials_per_pair=rb[0]['n'] if rb else 0, worst_err_eps_kappa=max([e['err_eps_kappa'] for e in rb] or [0]), budget=256,
               note='nu in [0.05, 0.45], mu over 60 binades; errors against max(mu,|lambda|), divided by kappa = 1/(1-2nu)')
-    chk.count(evaluations=len(ct) + len(st) + sum(e['n'] for e in rb), distinct=len(ct) + len(st) + len(rb))
+    mr = [e for e in evs if e['e'] == 'MapReal' and e['model'] == 'elastic']
+    chk.layer('B.maps', events=len(mr), worst_ulps=max([e['ulps'] for e in mr] or [0]), budget=8,
+              note='stress and strain maps x 3 model numeric types x 3 overload numeric types x direct / abstract interface on real tensors and moduli with full mantissas, against '
+                   '2 mu eps + lambda tr(eps) I and its inverse in __float128, in ulps of the overload type')
+    chk.count(evaluations=len(ct) + len(st) + sum(e['n'] for e in mr) + sum(e['n'] for e in rb), distinct=len(ct) + len(st) + len(rb))
     chk.cov['rule'] = 'exact: 12 dyadic materials x 20 constructors x 3 numeric types; maps: 5 integer materials x 3 tensors x 3 overloads x 2 call paths x 3 model types; numeric: random admissible materials per pair'
     for e in ct[:2] + st[:2] + rb[:1]:
         chk.sample(e)
